@@ -43,6 +43,10 @@ TABLE = {
             'Timeslice-wise action, preserved T/N, exact propagation of undefined slices, the stated index maps (roll for all dt, thin for all spacing/offset, symmetric, anti_symmetric, '
             'T_symmetry, item, projected, trace, matrix_symmetric, Hankel) and non-mutation of operands and arguments are decided for all sample values over the enumerated None patterns.',
             'Real-number semantics (NaN->undefined outside); T<=5, N<=2; warnings of the symmetry helpers stubbed; known finding: CObs / Corr raises TypeError.'),
+    'C15': (True, 'symbolic execution of Corr.deriv / second_deriv / m_eff / plateau on symbolic samples; SMT equality with the documented per-timeslice formula, path-wise decision of the undefined set; fsolve contract for cosh/sinh',
+            'Every variant is proven to return exactly the documented finite-difference / log / arccosh / averaging formula on the referenced slices (value and every fluctuation), '
+            'to be undefined exactly where stated, and to raise only when no output slice is defined; the cosh/sinh variants satisfy the root equation and the implicit-function rule under the fsolve contract.',
+            'Real-number semantics; T<=6; fsolve replaced by its contract; plateau by fit is covered through C07 (constant model).'),
 }
 
 NOT_YET = 'check not built yet in this session (work in progress; see DESIGN.md section 4 for the plan)'
